@@ -31,6 +31,10 @@ V = {
 BLOCKS = {
     'rules2': ["- *.o", "# keep the rest", "", "+ **"],
     'rulesbad': ["- *.o", "oops"],
+    # malformed lines BELOW a catch-all rule: no path can ever reach them, yet the configuration is malformed
+    'rulesbad2': ["+ keep.txt", "- **", "oops"],
+    'rulesbad3': ["- **", "+ sub/[a-"],
+    'rulesbad4': ["+ **", "-nospace"],
 }
 
 
@@ -201,7 +205,7 @@ def malformations(t):
             if leafname(d.get("path", ("x",))) == 'empty':
                 out.append("empty-item-path")
             f = d.get("filter")
-            if f and (leafname(f) in BAD_RULE or (f[0] == "block" and f[1] == 'rulesbad')):
+            if f and (leafname(f) in BAD_RULE or (f[0] == "block" and f[1].startswith('rulesbad'))):
                 out.append("bad-filter-rule")
         elif kind == "upload":
             if leafname(d.get("max_backup_groups", ("x",))) == 'zero':
@@ -278,7 +282,8 @@ def mutations(t):
                 for r in sorted(BAD_RULE) + ['comment', 'rule']:
                     out.append(("rule %s" % r, setp(t, p, L(r))))
                 out.append(("rule block", setp(t, p, ("block", 'rules2'))))
-                out.append(("rule block bad", setp(t, p, ("block", 'rulesbad'))))
+                for bad in ('rulesbad', 'rulesbad2', 'rulesbad3', 'rulesbad4'):
+                    out.append(("rule block bad", setp(t, p, ("block", bad))))
             if key == "name" and len(ks) >= 2 and ks[-2] == "provider":
                 for r in ('s3', 'ydisk', 'gdrive', 'dropbox'):
                     out.append(("provider %s" % r, setp(t, p, L(r))))
